@@ -114,6 +114,11 @@ def rule_rs1(A: Analysis, rep, F: Optional[RestoreFacts] = None):
     body_entry = [x for (x, l) in hdr.succ if l == "T"][0]
     gs = A.path_guards(g, body_entry, ct, fi)
     rep.check(bool(gs) and all(("t(%s.is_dir())" % src, True) in c for c in gs), "RS4", "source directory verified", ct.ast, "", "a missing archived directory is not detected before copying")
+    # every row's directory is copied by *this* restore: no path through an iteration avoids the copy (a pre-existing
+    # directory — e.g. the torso left by an interrupted restore — must make copytree fail, never be adopted as the version's data)
+    rep.check(g.all_paths_pass(body_entry, hdr, [ct], skip_labels=is_exc), "RS4", "every row's directory is copied in this transaction", ct.ast,
+              "each iteration reaches the next row only through copytree(src, dest)",
+              "an iteration can reach the next row / the commit without copying the version's directory (an existing, possibly incomplete directory would be recorded as the version)")
     # after copytree: dest verified before the iteration ends
     after = [n for n in g.nodes if n.kind == "test" and norm(n.ast) in ("not %s.is_dir()" % dst, "%s.is_dir()" % dst)]
     ok = bool(after) and all(g.all_paths_pass(ct, hdr, after, skip_labels=is_exc) for _ in [0])
@@ -134,10 +139,10 @@ def rule_rs1(A: Analysis, rep, F: Optional[RestoreFacts] = None):
     rep.check(len(raises) >= 4, "RS4", "invalid archives are rejected", fi.node, "missing file / index / directory all raise ArchiveFileInvalid",
               "only %d ArchiveFileInvalid checks remain (file, index, source dir, destination dir expected)" % len(raises), deep=False)
     ea = A.fn("cli.restore.extract_archive")
-    ok = any(isinstance(i, ast.If) and norm(i.test) == "process.returncode != 0" and any(isinstance(x, ast.Raise) for x in i.body) for i in walk_local(ea.node))
+    ok = tar_failure_checked(A, ea)
     rep.check(ok, "RS4", "tar failure is an error", ea.node, "", "a failing tar extraction is not reported")
     rep.expect_min("RS1", 3)
-    rep.expect_min("RS4", 6)
+    rep.expect_min("RS4", 7)
     return F
 
 
@@ -162,6 +167,34 @@ def rule_rs2(A: Analysis, rep, F: Optional[RestoreFacts] = None):
         rep.check(not dels, "RS2", "no delete/replace before the copy", call, "", "the restore loop deletes or replaces something: %s" % [norm(d)[:50] for d in dels])
     rep.expect_min("RS2", 2)
     return F
+
+
+def tar_failure_checked(A: Analysis, fi) -> bool:
+    """After the tar child was waited for, a non-zero exit status leads to a raise on every path
+    (`p.wait(); if p.returncode != 0: raise` / `rc = p.wait(); if rc: raise` / `if p.wait() != 0: raise`)."""
+    g = A.cfg(fi, "plain")
+    pops = [n for n in g.nodes if n.kind == "stmt" and isinstance(n.ast, ast.Assign) and isinstance(n.ast.value, ast.Call) and norm(n.ast.value.func) == "subprocess.Popen"
+            and isinstance(n.ast.targets[0], ast.Name)]
+    if len(pops) != 1:
+        return False
+    pv = pops[0].ast.targets[0].id
+    waits = [n for n in g.nodes if n.kind in ("stmt", "test") and n.ast is not None and
+             any(isinstance(c, ast.Call) and norm(c.func) == "%s.wait" % pv for c in ast.walk(n.ast))]
+    if len(waits) != 1:
+        return False
+    w = waits[0]
+    status = ["%s.returncode" % pv, "%s.wait()" % pv]
+    if w.kind == "stmt" and isinstance(w.ast, ast.Assign) and isinstance(w.ast.targets[0], ast.Name):
+        status.append(w.ast.targets[0].id)
+    ok_edges = [e for st in status for a in ("eq(0,%s)" % st,) for e in A.edges_implying(g, fi, a, True)] + \
+               [e for st in status for e in A.edges_implying(g, fi, "t(%s)" % st, False)]
+    if not ok_edges:
+        return False
+    # every normal path from the wait to the function's normal exit takes a "status is zero" edge
+    start = [w] if w.kind == "test" else [m for (m, l) in w.succ if not is_exc(l)]
+    r = g.reach(start, skip_labels=is_exc, removed_edges=ok_edges)
+    tested_after = all(g.reachable(w, t, skip_labels=is_exc) or t is w for (t, _l) in ok_edges)
+    return g.exit not in r and tested_after and g.dominates(pops[0], w, skip_labels=is_exc)
 
 
 def rule_name1(A: Analysis, rep):
@@ -207,12 +240,13 @@ def rule_name1(A: Analysis, rep):
     rep.check(ok, "NAME1", "archive packs every row of the archive index", ca.node, "", "the tar member list is not built from every version in the archive index")
     pops = [c for c in walk_local(ca.node) if isinstance(c, ast.Call) and norm(c.func) == "subprocess.Popen"]
     ok = False
-    if len(pops) == 1 and isinstance(pops[0].args[0], ast.List):
-        el = [norm(x) for x in pops[0].args[0].elts]
+    argv = A.expand(pops[0].args[0], ca) if len(pops) == 1 and pops[0].args else None
+    if isinstance(argv, ast.List):
+        el = [norm(x) for x in argv.elts]
         ok = el[:2] == ["'tar'", "'czf'"] and "'-C'" in el and el[el.index("'-C'") + 1] == "str(%s.output_path)" % ca.params[0] and \
             "str(%s.relative_to(%s.output_path))" % (ca.params[3], ca.params[0]) in el and el[-1].startswith("*")
     rep.check(ok, "NAME1", "tar packs the index and the directories relative to cond-out", ca.node, "", "the tar command line changed")
-    ok = any(isinstance(i, ast.If) and norm(i.test) == "process.returncode != 0" and any(isinstance(x, ast.Raise) for x in i.body) for i in walk_local(ca.node))
+    ok = tar_failure_checked(A, ca)
     rep.check(ok, "NAME1", "tar failure is an error", ca.node, "", "a failing tar is not reported")
     rep.expect_min("NAME1", 6)
 
@@ -260,7 +294,7 @@ def rule_ar1(A: Analysis, rep):
             return norm(x.func) in ("os.remove", "os.unlink") and x.args and norm(x.args[0]) in (pth, "str(%s)" % pth)
         unl = [n for n in g.nodes if n.kind in ("stmt", "with") and n.ast is not None and any(_is_del(x) for x in walk_local(n.ast))]
         # "the file does not exist" edges of an existence test on the same path count as well
-        absent = [(n, "F") for n in g.nodes if n.kind == "test" and n.ast is not None and norm(n.ast) in ("%s.exists()" % pth, "%s.is_file()" % pth, "os.path.exists(%s)" % pth)]
+        absent = [e for a in ("t(%s.exists())" % pth, "t(%s.is_file())" % pth, "t(os.path.exists(%s))" % pth) for e in A.edges_implying(g, fi, a, False)]
         unl = [u for u in unl if not g.reachable(col[0], u, skip_labels=skip)]
         r = g.reach([g.entry], removed=unl, skip_labels=skip, removed_edges=absent)
         ok3 = bool(unl) and col[0] not in r
